@@ -2,6 +2,8 @@ package c20
 
 import (
 	"crypto/cipher"
+	"crypto/ecdsa"
+	"crypto/elliptic"
 	"crypto/x509"
 	"crypto/x509/pkix"
 	"encoding/hex"
@@ -48,7 +50,7 @@ func s26init() {
 				c.KeyUsage = x509.KeyUsageCertSign | x509.KeyUsageCRLSign
 			} else {
 				c.KeyUsage = x509.KeyUsageDigitalSignature
-				c.DNSNames = []string{"leaf.s26.example"}
+				c.DNSNames = []string{"Leaf.S26.Example", "other.s26.example"} // mixed case: host name matching must not normalise the shared certificate in place
 				c.ExtKeyUsage = []x509.ExtKeyUsage{x509.ExtKeyUsageServerAuth}
 			}
 			return c
@@ -334,4 +336,39 @@ func s29() scenario {
 		}
 		return in
 	}}
+}
+
+// ---- S30: the SM2 algorithms on keys of OTHER curves (the math/big path of sm2_legacy.go), two threads, each with its
+// own keys: whatever the library keeps per curve at package scope (parameter encodings for ZA, ...) gets its first use
+// for a curve from both threads.
+// pureGoBuild is set by Run from the configuration name before the scenarios are built.
+var pureGoBuild bool
+
+func s30() scenario {
+	return independent("S30-sm2-algorithms-on-nist-curves-independent-objects", func(seed int) string {
+		a := newAcc()
+		for ci, cv := range []elliptic.Curve{elliptic.P256(), elliptic.P384(), elliptic.P224(), elliptic.P521()} {
+			if ci == 0 && pureGoBuild {
+				continue // Go's own nistec.P256OrdInverse stub panics in the purego build (DESIGN 11.3): not the library's
+			}
+			d := new(big.Int).SetBytes(fixedScalar(byte(110 + 4*seed + ci))[:24])
+			x, y := cv.ScalarBaseMult(d.Bytes())
+			key := &sm2.PrivateKey{PrivateKey: ecdsa.PrivateKey{PublicKey: ecdsa.PublicKey{Curve: cv, X: x, Y: y}, D: d}}
+			uid := pat(seed+ci+1, 11)
+			msg := pat(seed+ci+2, 50)
+			lane := byte(150 + 16*seed + 4*ci)
+			za, err := sm2.CalculateZA(&key.PublicKey, uid)
+			a.add("za", za, err)
+			sig, err := key.SignWithSM2(&engine.DetReader{Lane: lane}, uid, msg)
+			a.add("sign", sig, err)
+			a.add("verify", []byte(fmt.Sprint(sm2.VerifyASN1WithSM2(&key.PublicKey, uid, msg, sig), sm2.VerifyASN1WithSM2(&key.PublicKey, nil, msg, sig))), nil)
+			if ci < 2 {
+				ct, err := sm2.Encrypt(&engine.DetReader{Lane: lane + 1}, &key.PublicKey, msg[:21], nil)
+				a.add("encrypt", ct, err)
+				pt, err := key.Decrypt(nil, ct, nil)
+				a.add("decrypt", pt, err)
+			}
+		}
+		return a.sum()
+	})
 }
